@@ -11,3 +11,8 @@ import FontcProofs.PathsStf
 import FontcProofs.PathsKern
 import FontcProofs.PathsTarget
 import FontcProofs.PathsPersist
+import FontcProofs.LimitsMetrics
+import FontcProofs.LimitsMaxp
+import FontcProofs.LimitsBbox
+import FontcProofs.LimitsOs2
+import FontcProofs.LimitsF32
